@@ -345,7 +345,7 @@ impl Check for C10 {
         "C10"
     }
     fn cases(&self, tier: Tier) -> u64 {
-        tier.pick(10_000, 600_000)
+        tier.pick(10_000, 2_000_000)
     }
     fn run(&self, ctx: &Ctx, idx: u64, rec: &mut Recorder) {
         let mut rng = Rng::for_case(ctx.seed, "C10", idx);
